@@ -35,7 +35,7 @@ I(n) == [k |-> "int", n |-> n]
 Lt(i) == [k |-> "lit", n |-> i]
 ArgVal(d) == CASE d.k = "p" -> pool[d.n] [] d.k = "int" -> IntV(d.n) [] OTHER -> LitVals[d.n]
 
-\* ---- initial pools (four variants).  Each is a sequence of construction operations executed by
+\* ---- initial pools (five variants).  Each is a sequence of construction operations executed by
 \* the same Step machinery, so the harness builds the pool exactly as the specification does.
 InitOps(v) ==
   CASE v = 1 -> << [op |-> "list", a |-> <<I(1), I(2), I(3)>>, dst |-> 1],
@@ -59,6 +59,13 @@ InitOps(v) ==
                    [op |-> "list", a |-> <<I(1), I(2)>>, dst |-> 3],
                    [op |-> "list", a |-> <<I(1), I(2), I(3)>>, dst |-> 4],
                    [op |-> "equal?", a |-> <<P(1), P(2)>>, dst |-> 0] >>
+    \* a list holding objects that are equal? to other pool objects without being them (member / assoc / equal?
+    \* must compare contents, memq / assq / identity must not)
+    [] v = 5 -> << [op |-> "list", a |-> <<I(1), I(2)>>, dst |-> 1],
+                   [op |-> "list", a |-> <<I(1), I(2)>>, dst |-> 3],
+                   [op |-> "vector", a |-> <<I(1), I(2)>>, dst |-> 4],
+                   [op |-> "list", a |-> <<P(3), P(4), I(9)>>, dst |-> 2],
+                   [op |-> "vector", a |-> <<I(1), I(2)>>, dst |-> 4] >>
 
 -----------------------------------------------------------------------------
 \* objects reachable from a value (to keep structures acyclic: rendering a cycle never ends)
@@ -162,7 +169,7 @@ Apply(op, a, dst) ==
                            share |-> ShareMatrix(pool2, N, hp2), elem |-> ElemMatrix(pool2, N, hp2)])
 
 Init ==
-  /\ variant \in {1, 2, 3, 4}
+  /\ variant \in {1, 2, 3, 4, 5}
   /\ hp = <<>>
   /\ pool = [k \in 1..N |-> NilV]
   /\ hist = <<>>
